@@ -267,6 +267,35 @@ func queryImpl(mz *merklize.Merklizer, hs HSpec, parts []interface{}, why *[]str
 			out["dt"] = dt
 			_ = e
 		}
+		// the same parts as a path made with another hasher: it is what its own hash says it is - (almost surely) not a key
+		// of this tree - and Proof, Entry and JSONLDType must agree on that
+		other := hSalted()
+		if hs.Name == other.Name {
+			other = hPoseidon()
+		}
+		if fp, err := (merklize.Options{Hasher: other.H}).NewPath(parts...); err == nil {
+			if fkh, err := fp.MtEntry(); err == nil {
+				fproof, fval, ferr := mz.Proof(ctx, fp)
+				if ferr != nil || fproof == nil {
+					*why = append(*why, fmt.Sprintf("Proof fails for a path made with another hasher: %v", ferr))
+				} else {
+					fvh := big.NewInt(0)
+					if fproof.Existence && fval != nil {
+						if x, err := fval.MtEntry(); err == nil {
+							fvh = x
+						}
+					}
+					if !merkletree.VerifyProof(root, fproof, fkh, fvh) {
+						*why = append(*why, fmt.Sprintf("proof for %v as a path made with another hasher does not verify for that path's own hash", parts))
+					}
+					_, e2 := mz.Entry(fp)
+					_, t2 := mz.JSONLDType(fp)
+					if (e2 == nil) != fproof.Existence || (t2 == nil) != fproof.Existence {
+						*why = append(*why, fmt.Sprintf("path made with another hasher: Entry/JSONLDType success (%v/%v) differs from proof existence %v for %v", e2 == nil, t2 == nil, fproof.Existence, parts))
+					}
+				}
+			}
+		}
 		return out, nil
 	})
 	_ = qr{}
